@@ -37,7 +37,7 @@ class FormatParsers(ParserContext):
 def parse_format(string: str, /) -> result.Result[Format, ParseError | InvalidModeOrderingError]:
     try:
         return FormatParsers.format.parse(string)
-    except InvalidModeOrderingError as e:
+    except (InvalidModeOrderingError, ValueError) as e:
         return result.Failure(e)
 
 
@@ -46,5 +46,5 @@ def parse_named_format(
 ) -> result.Result[tuple[str, Format], ParseError | InvalidModeOrderingError]:
     try:
         return FormatParsers.named_format.parse(string)
-    except InvalidModeOrderingError as e:
+    except (InvalidModeOrderingError, ValueError) as e:
         return result.Failure(e)
